@@ -70,6 +70,16 @@ func (p *pp) startUnsafeOverride() restorer {
 	return restorer{p, prevMode, prevOverride}
 }
 
+// startPrint selects the mode in which a print call writes its
+// literal text: safe, unless the whole call runs under Unsafe().
+func (p *pp) startPrint() {
+	if p.override == overrideUnsafe {
+		p.buf.SetMode(b.UnsafeEscaped)
+	} else {
+		p.buf.SetMode(b.SafeEscaped)
+	}
+}
+
 type restorer struct {
 	p            *pp
 	prevMode     b.OutputMode
